@@ -29,6 +29,9 @@ import (
 	"path/filepath"
 	"runtime"
 	"runtime/debug"
+	"sort"
+	"strconv"
+	"strings"
 	"sync"
 	"sync/atomic"
 	"time"
@@ -38,6 +41,7 @@ import (
 func init() {
 	verifChecks["C06"] = pipeCheckC06
 	verifChecks["C08"] = pipeCheckC08
+	verifChildRoles["pipe"] = pipeChildMain
 }
 
 // ---------------------------------------------------------------------------------------------
@@ -231,6 +235,7 @@ type pipeStats struct {
 	fallbackW     int64
 	fallbackR     int64
 	reserveSkips  int64
+	emptyFirst    int64
 	suspects      uint64
 	bgMsgs        int64
 }
@@ -263,6 +268,7 @@ type pipeExec struct {
 	crossR    bool
 
 	st     pipeStats
+	vmu    sync.Mutex
 	viol   string
 	inconc string
 	stack  string
@@ -273,14 +279,27 @@ type pipeExec struct {
 	bgWG       sync.WaitGroup
 	bgPanic    atomic.Value
 	detSusp    uint64
-	x13        int
 }
 
 func (e *pipeExec) violate(format string, a ...interface{}) {
-	if e.viol == "" {
-		e.viol = fmt.Sprintf(format, a...)
-	}
+	e.setViol(fmt.Sprintf(format, a...), "")
 	panic(pipeStop{})
+}
+
+// setViol records the first violation (read by the watchdog of pipeRunCase when the teardown hangs afterwards).
+func (e *pipeExec) setViol(msg, stack string) {
+	e.vmu.Lock()
+	if e.viol == "" {
+		e.viol = msg
+		e.stack = stack
+	}
+	e.vmu.Unlock()
+}
+
+func (e *pipeExec) getViol() string {
+	e.vmu.Lock()
+	defer e.vmu.Unlock()
+	return e.viol
 }
 
 func (e *pipeExec) inconclusive(format string, a ...interface{}) {
@@ -983,36 +1002,7 @@ func (e *pipeExec) doWrite(s *pipeStream, d int, kind int, n int) {
 			n = e.largest
 		}
 		ws := W.sendBuf.sliceList.writeSlice
-		var b []byte
-		var err error
-		if n == 0 && ws == nil {
-			// proposed finding X13: Reserve(0) on an empty send buffer while every class is exhausted dereferences a nil write slice
-			// (alloc(0) pushes no slice at all). Exactly this call is gated; the send buffer is left unchanged by the failed call.
-			var pv interface{}
-			func() {
-				defer func() { pv = recover() }()
-				b, err = bw.Reserve(0)
-			}()
-			if pv != nil {
-				if W.sendBuf.sliceList.front() != nil || W.sendBuf.Len() != 0 {
-					panic(pv)
-				}
-				e.x13++
-				if e.x13 == 1 {
-					free := make([]int, len(e.bm.lists))
-					for i, l := range e.bm.lists {
-						free[i] = l.remain()
-					}
-					e.c.knownFindingHit("X13", fmt.Sprintf("%s-%s-%d", e.cs.Prop, e.cs.Mode, e.cs.Idx),
-						map[string]interface{}{"case": e.cs, "trace_tail": e.traceTail(40), "free_slots_per_class": free, "panic": fmt.Sprint(pv)},
-						"Reserve(0) on an empty send buffer with exhausted share memory panicked: %v (free slots per class %v)", pv, free)
-				}
-				e.rec(s, d, kind, 0, -1, 0)
-				return
-			}
-		} else {
-			b, err = bw.Reserve(n)
-		}
+		b, err := bw.Reserve(n) // Reserve(n <= 0) returns an empty slice and changes nothing (fix X13)
 		if err != nil || len(b) != n {
 			e.violate("Reserve(%d) on stream %d dir %d returned (%d bytes, %v)", n, s.n, d, len(b), err)
 		}
@@ -1112,6 +1102,14 @@ func (e *pipeExec) writerStep(s *pipeStream, d int) {
 	if kind != pipeOpFlush && kind != pipeOpWriteByte {
 		n = e.writeSize(W)
 	}
+	if ws := W.sendBuf.sliceList.writeSlice; ws != nil && ws == W.sendBuf.sliceList.front() && ws.writeIndex == 0 && ws.isFromShm &&
+		int(ws.cap) < e.largest && e.rng.Intn(4) != 0 {
+		// an empty write slice (kept by ReleaseReadAndReuse): a Reserve that does not fit skips it, the message then starts with an
+		// empty slice, which the receiving side has to unlink
+		kind = pipeOpReserve
+		n = int(ws.cap) + 1 + e.rng.Intn(e.largest-int(ws.cap))
+		e.st.emptyFirst++
+	}
 	e.doWrite(s, d, kind, n)
 }
 
@@ -1168,7 +1166,10 @@ func (e *pipeExec) readerStep(s *pipeStream, d int) {
 			kind = pipeOpLenSync
 		}
 	}
-	if avail == 0 && dir.consumed > 0 && R.BufferReader().Len() == 0 && e.rng.Intn(4) == 0 {
+	if _, fsize, _, ok := pipeFront(R); ok && fsize == 0 && avail > 0 && e.rng.Intn(3) == 0 {
+		kind = pipeOpReadByte // the front slice is used up: ReadByte has its own step-to-the-next-slice code
+	}
+	if avail == 0 && dir.consumed > 0 && R.BufferReader().Len() == 0 && e.rng.Intn(2) == 0 {
 		kind = pipeOpReuse // everything read: the situation in which ReleaseReadAndReuse swaps the buffers
 	}
 	if kind == pipeOpRelease || kind == pipeOpReuse {
@@ -1345,10 +1346,13 @@ func (e *pipeExec) waitScribbler() {
 			maxFree = f
 		}
 	}
+	if atomic.LoadInt32(&e.stop) != 0 {
+		return // scribbler already stopped (end of the sequence)
+	}
 	need := uint64(2*(maxFree/pipeScribBatch+1) + 2)
 	start := atomic.LoadUint64(&e.scribRound)
 	deadline := time.Now().Add(10 * time.Second)
-	for atomic.LoadUint64(&e.scribRound)-start < need {
+	for atomic.LoadUint64(&e.scribRound)-start < need && atomic.LoadInt32(&e.stop) == 0 {
 		runtime.Gosched()
 		if time.Now().After(deadline) {
 			return // scribbler starved: weaker check, never a verdict
@@ -1451,7 +1455,9 @@ func pipePopWon(b *bufferList, slotOffset uint32, begin uint64) {
 	seq := atomic.AddUint64(&dt.popSeq, 1)
 	last := atomic.SwapUint64(&dt.last[idx], seq)
 	if last > begin {
-		atomic.AddUint64(dt.suspects, 1)
+		if atomic.AddUint64(dt.suspects, 1) == 1 {
+			childLog("aba-suspect")
+		}
 	}
 }
 
@@ -1499,10 +1505,7 @@ func (e *pipeExec) run() {
 		r := recover()
 		if r != nil {
 			if _, ok := r.(pipeStop); !ok {
-				if e.viol == "" {
-					e.viol = fmt.Sprintf("panic: %v", r)
-					e.stack = string(debug.Stack())
-				}
+				e.setViol(fmt.Sprintf("panic: %v", r), string(debug.Stack()))
 			}
 		}
 		// never touch handed-out slices after this point
@@ -1617,8 +1620,8 @@ func (e *pipeExec) run() {
 		atomic.StoreInt32(&e.stop, 1)
 		e.bgWG.Wait()
 		if v := e.bgPanic.Load(); v != nil {
-			e.stack = v.(string)
-			e.violate("panic in the background traffic stream while the scribbler was running")
+			e.setViol("panic in the background traffic stream while the scribbler was running", v.(string))
+			panic(pipeStop{})
 		}
 		bgCli.Close()
 		bgSrv.Close()
@@ -1691,9 +1694,7 @@ func (e *pipeExec) teardown(census bool) {
 		if per[i] != len(e.hoards[i]) {
 			msg := fmt.Sprintf("after closing every stream on both ends (quiesced, no stream left): class %d (%d B) has %d buffers allocated, baseline (hoard) %d: "+
 				"%d buffers did not come back", i, e.caps[i], per[i], len(e.hoards[i]), per[i]-len(e.hoards[i]))
-			if e.viol == "" {
-				e.viol = msg
-			}
+			e.setViol(msg, "")
 			return
 		}
 	}
@@ -1765,42 +1766,78 @@ type pipeTotals struct {
 	msMode   map[string]int64
 	stuck    int32
 	realViol int32
-	x13      int
 	samples  int
 	suspExec int
+	doneN    int
 }
 
-func pipeRunCase(c *checkCtx, cs pipeCase, tot *pipeTotals) {
+func newPipeTotals() *pipeTotals {
+	return &pipeTotals{byLevel: map[int]int{}, byCfg: map[string]int{}, byMode: map[string]int{}, msMode: map[string]int64{}}
+}
+
+// pipeMsg is one line of the child -> parent protocol (the sequences run in child processes: a fault that kills the
+// process - e.g. a panic on the event loop goroutine - costs one slice of the run and is reported, not lost).
+type pipeMsg struct {
+	Start    string                 `json:"start,omitempty"`
+	Done     string                 `json:"done,omitempty"`
+	Pos      int                    `json:"pos"`
+	Viol     string                 `json:"viol,omitempty"`
+	Inconc   string                 `json:"inconc,omitempty"`
+	Witness  map[string]interface{} `json:"witness,omitempty"`
+	Key      string                 `json:"key,omitempty"`
+	Sample   interface{}            `json:"sample,omitempty"`
+	Counters map[string]int64       `json:"counters,omitempty"`
+	End      bool                   `json:"end,omitempty"`
+}
+
+type pipeOut struct {
+	mu sync.Mutex
+}
+
+func (o *pipeOut) send(m pipeMsg) {
+	o.mu.Lock()
+	childReply(m)
+	o.mu.Unlock()
+}
+
+func pipeRunCase(c *checkCtx, cs pipeCase, pos int, tot *pipeTotals, out *pipeOut) {
 	e := &pipeExec{c: c, cs: cs}
 	e.checkLive = cs.Mode != "c06"
 	e.det = cs.Mode == "det"
 	e.stress = cs.Mode == "stress"
 	name := fmt.Sprintf("%s-%s-%d", cs.Prop, cs.Mode, cs.Idx)
+	childLog("start %s pos=%d %+v", name, pos, cs)
+	out.send(pipeMsg{Start: name, Pos: pos})
 	t0 := time.Now()
 	done := make(chan struct{})
 	go func() {
 		defer close(done)
 		defer func() {
 			if r := recover(); r != nil { // a panic outside run()'s own recover (teardown)
-				if e.viol == "" {
-					e.viol = fmt.Sprintf("panic during teardown: %v", r)
-					e.stack = string(debug.Stack())
-				}
+				e.setViol(fmt.Sprintf("panic during teardown: %v", r), string(debug.Stack()))
 			}
 		}()
 		e.run()
 	}()
 	select {
 	case <-done:
-	case <-time.After(300 * time.Second):
+	case <-time.After(180 * time.Second):
 		dump := goroutineDump()
 		path := filepath.Join(c.work, fmt.Sprintf("%s.watchdog.%d.txt", name, os.Getpid()))
 		_ = os.WriteFile(path, []byte(dump), 0o644)
-		c.inconclusiveCase(name, "watchdog: the sequence did not finish within 300 s (goroutine dump in "+path+")")
 		atomic.AddInt32(&tot.stuck, 1)
+		if v := e.getViol(); v != "" {
+			// the violation was observed before; only the clean-up afterwards hangs (e.g. a library panic left a mutex locked)
+			atomic.AddInt32(&tot.realViol, 1)
+			out.send(pipeMsg{Done: name, Pos: pos, Viol: v + " [afterwards the clean-up did not finish within 180 s]",
+				Witness: map[string]interface{}{"case": cs, "stack": truncate(e.stack, 6000), "goroutine_dump": path}})
+			return
+		}
+		out.send(pipeMsg{Done: name, Pos: pos, Inconc: "watchdog: the sequence did not finish within 180 s (goroutine dump in " + path + ")"})
 		return
 	}
-	c.eval(1)
+	childLog("done %s", name)
+	msg := pipeMsg{Done: name, Pos: pos}
 	tot.mu.Lock()
 	defer tot.mu.Unlock()
 	a, b := &tot.st, &e.st
@@ -1828,6 +1865,7 @@ func pipeRunCase(c *checkCtx, cs pipeCase, tot *pipeTotals) {
 	a.fallbackW += b.fallbackW
 	a.fallbackR += b.fallbackR
 	a.reserveSkips += b.reserveSkips
+	a.emptyFirst += b.emptyFirst
 	a.bgMsgs += b.bgMsgs
 	a.suspects += b.suspects
 	if b.maxLive > a.maxLive {
@@ -1836,7 +1874,6 @@ func pipeRunCase(c *checkCtx, cs pipeCase, tot *pipeTotals) {
 	if b.suspects > 0 {
 		tot.suspExec++
 	}
-	tot.x13 += e.x13
 	for _, l := range cs.Levels {
 		tot.byLevel[l.Level]++
 	}
@@ -1863,20 +1900,26 @@ func pipeRunCase(c *checkCtx, cs pipeCase, tot *pipeTotals) {
 	}
 	switch {
 	case e.viol != "" && e.stress && e.st.suspects > 0:
-		c.inconclusiveCase(name, fmt.Sprintf("failure in an execution with %d ABA suspects in the allocator (known finding F1 contaminates it): %s", e.st.suspects, e.viol))
+		msg.Inconc = fmt.Sprintf("failure in an execution with %d ABA suspects in the allocator (known finding F1 contaminates it): %s", e.st.suspects, e.viol)
 	case e.viol != "":
 		atomic.AddInt32(&tot.realViol, 1)
-		c.violation(name, witness(), "%s", e.viol)
+		msg.Viol = e.viol
+		msg.Witness = witness()
 	case e.inconc != "":
-		c.inconclusiveCase(name, e.inconc)
+		msg.Inconc = e.inconc
 	}
 	if e.crossW && e.crossR && e.viol == "" {
-		c.nontrivial(e.traceHash())
-		if tot.samples < 4 && (tot.samples == 0 || cs.Idx%7 == 3) {
+		msg.Key = e.traceHash()
+		if tot.samples < 2 && (tot.samples == 0 || cs.Idx%7 == 3) {
 			tot.samples++
-			c.sample(map[string]interface{}{"case": cs, "classes": e.caps, "first_ops": e.traceTail(1 << 30)[:pipeMin(30, len(e.trace))]})
+			msg.Sample = map[string]interface{}{"case": cs, "classes": e.caps, "first_ops": e.traceTail(1 << 30)[:pipeMin(30, len(e.trace))]}
 		}
 	}
+	tot.doneN++
+	if tot.doneN%64 == 0 {
+		msg.Counters = pipeCounterMap(tot)
+	}
+	out.send(msg)
 }
 
 func pipeMin(a, b int) int {
@@ -1886,106 +1929,320 @@ func pipeMin(a, b int) int {
 	return b
 }
 
-func pipeRunAll(c *checkCtx, cases []pipeCase) *pipeTotals {
-	tot := &pipeTotals{byLevel: map[int]int{}, byCfg: map[string]int{}, byMode: map[string]int{}, msMode: map[string]int64{}}
-	workers := c.jobs
-	if workers > 8 {
-		workers = 8
+// pipeCounterMap turns the totals into named counters and resets them (caller holds tot.mu). Names starting with
+// "max " are merged by maximum, all others by sum.
+func pipeCounterMap(tot *pipeTotals) map[string]int64 {
+	m := map[string]int64{}
+	st := &tot.st
+	add := func(name string, n int64) {
+		if n != 0 {
+			m[name] += n
+		}
 	}
+	for k := 0; k < pipeOpKinds; k++ {
+		add("op "+pipeOpNames[k], st.ops[k])
+	}
+	add("bytes read and compared", st.bytes)
+	add("messages flushed through share memory", st.flushShm)
+	add("messages flushed by a stream in socket (fallback) state", st.flushSocket)
+	add("fallback writes (session stats)", st.fallbackW)
+	add("fallback reads (session stats)", st.fallbackR)
+	add("multi-slice messages flushed", st.multiSlice)
+	add("Reserve skipped to another slice", st.reserveSkips)
+	add("Reserve skipped an empty reuse slice (message starts with an empty slice)", st.emptyFirst)
+	add("read ops that crossed a slice boundary", st.readCross)
+	add("peeks", st.peeks)
+	add("results aliasing share memory (zero-copy)", st.aliasShm)
+	add("ReadBytes results that were copies or socket-carried", st.copies)
+	add("zero-size calls", st.zeroOps)
+	add("ReleaseReadAndReuse that swapped the buffers", st.swaps)
+	add("reads that had to wait for delivery", st.blockingReads)
+	add("reads issued after logical quiescence", st.syncs)
+	add("registry comparisons (live slice re-checks)", st.liveChecks)
+	add("registry comparisons of slices aliasing share memory", st.liveAliasChk)
+	add("scribbler passes (deterministic mode)", st.scribbles)
+	add("buffers scribbled with 0xEE", st.scribbled)
+	add("allocator censuses passed", st.census)
+	add("streams closed while results were still live (release by Close)", st.closeWithLive)
+	add("max simultaneously live results in one sequence", int64(st.maxLive))
+	add("background traffic messages (stress mode)", st.bgMsgs)
+	add("ABA suspects (stress mode)", int64(st.suspects))
+	add("executions with ABA suspects", int64(tot.suspExec))
+	for l, n := range tot.byLevel {
+		add(fmt.Sprintf("exhaustion level %d%% applied", l), int64(n))
+	}
+	for k, n := range tot.byCfg {
+		add("sequences on slice config "+k, int64(n))
+	}
+	for k, n := range tot.byMode {
+		add("sequences in mode "+k, int64(n))
+	}
+	for k, n := range tot.msMode {
+		add("summed sequence wall time (ms) in mode "+k, n)
+	}
+	tot.st = pipeStats{}
+	tot.suspExec = 0
+	tot.byLevel, tot.byCfg, tot.byMode, tot.msMode = map[int]int{}, map[string]int{}, map[string]int{}, map[string]int64{}
+	return m
+}
+
+// pipeCases: the case list of a check, a function of (tier, VERIF_SEED) only.
+func pipeCases(c *checkCtx, prop string) []pipeCase {
+	var cases []pipeCase
+	if prop == "C06" {
+		n := c.pick(1000, 40000)
+		for ci, cfg := range pipeCfgs {
+			for li, lv := range []int{0, 100} {
+				cases = append(cases, pipeCase{Prop: "C06", Idx: 1000000 + ci*2 + li, Mode: "c06", Cfg: cfg.Name, MemFd: li == 0, Directed: true,
+					Levels: []pipeLevel{{0, lv}}, Seed: c.seed*131 + int64(ci*2+li) + 1})
+			}
+		}
+		for i := 0; i < n; i++ {
+			cases = append(cases, pipeGenCase(c, "C06", i, 0))
+		}
+	} else {
+		n := c.pick(300, 20000)
+		for i := 0; i < n; i++ {
+			cases = append(cases, pipeGenCase(c, "C08", i, n/5))
+		}
+	}
+	if only := os.Getenv("VERIF_PIPE_ONLY"); only != "" { // debugging aid: run one mode only
+		var sel []pipeCase
+		for _, cs := range cases {
+			if cs.Mode == only {
+				sel = append(sel, cs)
+			}
+		}
+		cases = sel
+	}
+	return cases
+}
+
+// ---- child side: args = prop, part, parts, after (list position), workers
+
+func pipeChildMain(args []string) {
+	if len(args) < 5 {
+		os.Exit(3)
+	}
+	prop := args[0]
+	part, _ := strconv.Atoi(args[1])
+	parts, _ := strconv.Atoi(args[2])
+	after, _ := strconv.Atoi(args[3])
+	workers, _ := strconv.Atoi(args[4])
 	if workers < 1 {
 		workers = 1
 	}
-	ch := make(chan pipeCase)
+	c := newCheckCtx(prop)
+	if prop == "C08" {
+		verifPopHook.Store(&verifPopHooks{begin: pipePopBegin, won: pipePopWon})
+	}
+	cases := pipeCases(c, prop)
+	tot := newPipeTotals()
+	out := &pipeOut{}
+	type job struct {
+		cs  pipeCase
+		pos int
+	}
+	ch := make(chan job)
 	var wg sync.WaitGroup
 	for w := 0; w < workers; w++ {
 		wg.Add(1)
 		go func() {
 			defer wg.Done()
-			for cs := range ch {
-				if atomic.LoadInt32(&tot.realViol) >= 5 || atomic.LoadInt32(&tot.stuck) >= 3 {
+			for j := range ch {
+				if atomic.LoadInt32(&tot.realViol) >= 5 || atomic.LoadInt32(&tot.stuck) >= 2 {
 					continue // the verdict is settled (or the machine is stuck): skip the rest
 				}
-				pipeRunCase(c, cs, tot)
+				pipeRunCase(c, j.cs, j.pos, tot, out)
 			}
 		}()
 	}
-	for _, cs := range cases {
-		ch <- cs
+	for pos, cs := range cases {
+		if pos%parts == part && pos > after {
+			ch <- job{cs, pos}
+		}
 	}
 	close(ch)
 	wg.Wait()
-	return tot
+	tot.mu.Lock()
+	m := pipeCounterMap(tot)
+	tot.mu.Unlock()
+	out.send(pipeMsg{Counters: m, Pos: -1})
+	out.send(pipeMsg{End: true, Pos: -1})
 }
 
-func pipeCounts(c *checkCtx, tot *pipeTotals) {
-	st := &tot.st
-	for k := 0; k < pipeOpKinds; k++ {
-		if st.ops[k] > 0 {
-			c.count("op "+pipeOpNames[k], st.ops[k])
+// ---- parent side
+
+type pipeParent struct {
+	mu      sync.Mutex
+	maxes   map[string]int64
+	deaths  int32
+	evalN   int64
+	samples int
+}
+
+func pipeDrive(c *checkCtx, prop string, part, parts, workers int, pp *pipeParent) {
+	after := -1
+	for attempt := 0; attempt < 4; attempt++ {
+		cp, err := c.spawnChild("pipe", []string{prop, strconv.Itoa(part), strconv.Itoa(parts), strconv.Itoa(after), strconv.Itoa(workers)})
+		if err != nil {
+			c.inconclusiveCase(fmt.Sprintf("%s-child-%d", prop, part), "cannot start the child process: "+err.Error())
+			return
+		}
+		started := map[string]int{}
+		ended := false
+		timedOut := false
+		maxPos := after
+		for {
+			var m pipeMsg
+			line, ok := cp.recv(30*time.Minute, &m)
+			if !ok {
+				if line != "" {
+					continue // not a protocol line
+				}
+				break
+			}
+			switch {
+			case m.Start != "":
+				started[m.Start] = m.Pos
+				if m.Pos > maxPos {
+					maxPos = m.Pos
+				}
+			case m.Done != "":
+				delete(started, m.Done)
+				switch {
+				case m.Viol != "":
+					c.eval(1)
+					c.violation(m.Done, m.Witness, "%s", m.Viol)
+				case m.Inconc != "":
+					c.inconclusiveCase(m.Done, m.Inconc)
+				default:
+					c.eval(1)
+				}
+				if m.Key != "" {
+					c.nontrivial(m.Key)
+				}
+				if m.Sample != nil {
+					c.sample(m.Sample)
+				}
+			case m.End:
+				ended = true
+			}
+			for k, n := range m.Counters {
+				if strings.HasPrefix(k, "max ") {
+					pp.mu.Lock()
+					if n > pp.maxes[k] {
+						pp.maxes[k] = n
+					}
+					pp.mu.Unlock()
+				} else {
+					c.count(k, n)
+				}
+			}
+			if ended {
+				break
+			}
+		}
+		ex := cp.wait(20 * time.Second)
+		if ended && ex.Exited && ex.Code == 0 && !ex.TimedOut {
+			cp.cleanupFiles()
+			return
+		}
+		timedOut = ex.TimedOut
+		var running []string
+		for n := range started {
+			running = append(running, n)
+		}
+		sort.Strings(running)
+		logData, _ := os.ReadFile(cp.logPath)
+		name := fmt.Sprintf("%s-child-%d-died-%d", prop, part, attempt)
+		wit := map[string]interface{}{"sequences_running_when_it_died": running, "exit": fmt.Sprintf("exited=%v code=%d signal=%s timed_out=%v", ex.Exited, ex.Code, ex.Signal, ex.TimedOut),
+			"stderr": truncate(ex.Stderr, 12000), "child_log": cp.logPath}
+		fatal := strings.Contains(ex.Stderr, "panic:") || strings.Contains(ex.Stderr, "fatal error:") || strings.Contains(ex.Stderr, "unexpected fault address") ||
+			strings.Contains(ex.Stderr, "SIGSEGV") || strings.Contains(ex.Stderr, "SIGBUS")
+		switch {
+		case timedOut || ended:
+			c.inconclusiveCase(name, "the child process did not exit in time (watchdog); sequences running: "+strings.Join(running, ","))
+		case fatal && bytes.Contains(logData, []byte("aba-suspect")):
+			c.inconclusiveCase(name, "the child process died in a run with ABA suspects in the allocator (known finding F1): "+firstLine(ex.Stderr))
+		case fatal:
+			c.violation(name, wit, "the process died while running sequences %v: %s", running, firstLine(ex.Stderr))
+		default:
+			c.inconclusiveCase(name, fmt.Sprintf("the child process ended unexpectedly (%v) without a Go panic / fault in its stderr", wit["exit"]))
+		}
+		if atomic.AddInt32(&pp.deaths, 1) >= 4 {
+			return
+		}
+		after = maxPos // resume behind the sequences that were running
+	}
+}
+
+func firstLine(s string) string {
+	for _, l := range strings.Split(s, "\n") {
+		if strings.Contains(l, "panic:") || strings.Contains(l, "fatal error:") || strings.Contains(l, "unexpected fault") {
+			return truncate(strings.TrimSpace(l), 300)
 		}
 	}
-	c.count("bytes read and compared", st.bytes)
-	c.count("messages flushed through share memory", st.flushShm)
-	c.count("messages flushed by a stream in socket (fallback) state", st.flushSocket)
-	c.count("fallback writes (session stats)", st.fallbackW)
-	c.count("fallback reads (session stats)", st.fallbackR)
-	c.count("multi-slice messages flushed", st.multiSlice)
-	c.count("Reserve skipped to another slice", st.reserveSkips)
-	c.count("read ops that crossed a slice boundary", st.readCross)
-	c.count("peeks", st.peeks)
-	c.count("results aliasing share memory (zero-copy)", st.aliasShm)
-	c.count("ReadBytes results that were copies or socket-carried", st.copies)
-	c.count("zero-size calls", st.zeroOps)
-	c.count("ReleaseReadAndReuse that swapped the buffers", st.swaps)
-	c.count("reads that had to wait for delivery", st.blockingReads)
-	c.count("reads issued after logical quiescence", st.syncs)
-	for l, n := range tot.byLevel {
-		c.count(fmt.Sprintf("exhaustion level %d%% applied", l), int64(n))
+	if i := strings.IndexByte(s, '\n'); i >= 0 {
+		return truncate(s[:i], 300)
 	}
-	for k, n := range tot.byCfg {
-		c.count("sequences on slice config "+k, int64(n))
+	return truncate(s, 300)
+}
+
+func pipeRunChildren(c *checkCtx, prop string) *pipeParent {
+	pp := &pipeParent{maxes: map[string]int64{}}
+	parts := 4
+	jobs := c.jobs
+	if jobs > 8 {
+		jobs = 8
 	}
-	for k, n := range tot.byMode {
-		c.count("sequences in mode "+k, int64(n))
+	if jobs < parts {
+		parts = jobs
 	}
-	for k, n := range tot.msMode {
-		c.count("summed sequence wall time (ms) in mode "+k, n)
+	if parts < 1 {
+		parts = 1
 	}
+	workers := jobs / parts
+	if workers < 1 {
+		workers = 1
+	}
+	var wg sync.WaitGroup
+	for part := 0; part < parts; part++ {
+		wg.Add(1)
+		go func(part int) {
+			defer wg.Done()
+			pipeDrive(c, prop, part, parts, workers, pp)
+		}(part)
+	}
+	wg.Wait()
+	for k, n := range pp.maxes {
+		c.count(k, n)
+	}
+	c.count("child processes that died", int64(atomic.LoadInt32(&pp.deaths)))
+	return pp
 }
 
 func pipeCheckC06(c *checkCtx) {
 	c.rule = "sequence = (slice config {16},{16,64},{32,128},{64,512,4096},{16,64,4096 skewed},default; exhaustion 0/50/99/100 % changed up to twice " +
 		"while running; primary direction; 1-3 streams; 200-300 alternating writer/reader ops with sizes from class boundary values, the live fill state " +
-		"of the current slice, and random) from PRNG(VERIF_SEED, index); every returned byte is compared with the keyed byte function, every count and " +
+		"of the current slice, and random) from PRNG(VERIF_SEED, index), plus 12 directed sequences of zero-size calls on never-used and emptied buffers; " +
+		"every returned byte is compared with the keyed byte function, every count and " +
 		"Len() (reader: <= flushed-consumed always, == when the call needed every flushed byte; writer: == written-flushed) is checked; " +
 		"non-trivial = the sequence flushed at least one multi-slice message AND at least one read op crossed a slice boundary; distinct = hash of the " +
 		"executed operation trace (kinds, sizes, results, path flags)"
 	c.assume("one goroutine per stream end (the API does not support concurrent use of one stream end); sizes up to 10x the largest class (<= 1.3 MiB)")
 	c.assume("ReleaseReadAndReuse is only called while the end's own send buffer holds no unflushed data; negative sizes are not passed")
 	c.assume("client and server live in one process and share one bufferManager object; messages still travel through the real queue / socket")
-	n := c.pick(400, 40000)
-	cases := make([]pipeCase, 0, n+16)
-	for ci, cfg := range pipeCfgs {
-		for li, lv := range []int{0, 100} {
-			cases = append(cases, pipeCase{Prop: "C06", Idx: 1000000 + ci*2 + li, Mode: "c06", Cfg: cfg.Name, MemFd: li == 0, Directed: true,
-				Levels: []pipeLevel{{0, lv}}, Seed: c.seed*131 + int64(ci*2+li) + 1})
-		}
-	}
-	for i := 0; i < n; i++ {
-		cases = append(cases, pipeGenCase(c, "C06", i, 0))
-	}
-	tot := pipeRunAll(c, cases)
-	pipeCounts(c, tot)
-	st := &tot.st
-	c.count("Reserve(0) panics on an exhausted empty send buffer (proposed finding X13)", int64(tot.x13))
-	if atomic.LoadInt32(&tot.realViol) == 0 && atomic.LoadInt32(&tot.stuck) == 0 {
-		if st.fallbackW == 0 {
+	c.assume("sequences run in 4 child processes; a child that dies of a Go panic / fault is a violation attributed to the sequences running at that moment")
+	pp := pipeRunChildren(c, "C06")
+	if c.violations == 0 && atomic.LoadInt32(&pp.deaths) == 0 && len(c.inconclusive) == 0 {
+		if c.counter("fallback writes (session stats)") == 0 {
 			c.noObservation("no message travelled through the socket (fallback)")
 		}
-		if st.flushShm == 0 {
+		if c.counter("messages flushed through share memory") == 0 {
 			c.noObservation("no message travelled through share memory")
 		}
-		if st.multiSlice == 0 || st.readCross == 0 {
+		if c.counter("multi-slice messages flushed") == 0 || c.counter("read ops that crossed a slice boundary") == 0 {
 			c.noObservation("no multi-slice message / no read across a slice boundary")
 		}
 	}
@@ -2003,45 +2260,16 @@ func pipeCheckC08(c *checkCtx) {
 	c.assume("a failure in a stress execution in which the allocator's ABA detector recorded a suspect is counted inconclusive (known finding F1), never held")
 	c.assume("deterministic mode: the harness goroutine is the only allocating goroutine of the bufferManager, so F1 cannot occur there")
 	c.assume("slices are never touched after the session is closed (known finding F2)")
-	verifPopHook.Store(&verifPopHooks{begin: pipePopBegin, won: pipePopWon})
-	defer verifPopHook.Store((*verifPopHooks)(nil))
-	n := c.pick(300, 20000)
-	nStress := n / 5
-	cases := make([]pipeCase, 0, n)
-	for i := 0; i < n; i++ {
-		cases = append(cases, pipeGenCase(c, "C08", i, nStress))
-	}
-	if only := os.Getenv("VERIF_PIPE_ONLY"); only != "" { // debugging aid: run one mode only
-		var sel []pipeCase
-		for _, cs := range cases {
-			if cs.Mode == only {
-				sel = append(sel, cs)
-			}
-		}
-		cases = sel
-	}
-	tot := pipeRunAll(c, cases)
-	pipeCounts(c, tot)
-	st := &tot.st
-	c.count("registry comparisons (live slice re-checks)", st.liveChecks)
-	c.count("registry comparisons of slices aliasing share memory", st.liveAliasChk)
-	c.count("scribbler passes (deterministic mode)", st.scribbles)
-	c.count("buffers scribbled with 0xEE", st.scribbled)
-	c.count("allocator censuses passed", st.census)
-	c.count("streams closed while results were still live (release by Close)", st.closeWithLive)
-	c.count("max simultaneously live results in one sequence", int64(st.maxLive))
-	c.count("background traffic messages (stress mode)", st.bgMsgs)
-	c.count("ABA suspects (stress mode)", int64(st.suspects))
-	c.count("executions with ABA suspects", int64(tot.suspExec))
-	c.count("Reserve(0) panics on an exhausted empty send buffer (proposed finding X13)", int64(tot.x13))
-	if atomic.LoadInt32(&tot.realViol) == 0 && atomic.LoadInt32(&tot.stuck) == 0 {
-		if st.aliasShm == 0 || st.liveAliasChk == 0 {
+	c.assume("sequences run in 4 child processes; a child that dies of a Go panic / fault is a violation attributed to the sequences running at that moment")
+	pp := pipeRunChildren(c, "C08")
+	if c.violations == 0 && atomic.LoadInt32(&pp.deaths) == 0 && len(c.inconclusive) == 0 {
+		if c.counter("results aliasing share memory (zero-copy)") == 0 || c.counter("registry comparisons of slices aliasing share memory") == 0 {
 			c.noObservation("no zero-copy (share-memory aliasing) result was ever registered and re-checked")
 		}
-		if st.scribbled == 0 {
+		if c.counter("buffers scribbled with 0xEE") == 0 {
 			c.noObservation("the scribbler never obtained a buffer")
 		}
-		if st.closeWithLive == 0 || st.census == 0 {
+		if c.counter("streams closed while results were still live (release by Close)") == 0 || c.counter("allocator censuses passed") == 0 {
 			c.noObservation("no release by Close with live results / no census")
 		}
 	}
